@@ -126,6 +126,11 @@ pub enum G {
     Ext(Box<G>, bool),
     /// `custom(|inp| inp.parse(&inner))`
     CustomNest(Box<G>),
+    /// a recursive parser whose body refers to it through `RecRef`; `true` = built with
+    /// `Recursive::declare()` / `define()`, `false` = with `recursive(|r| ..)`
+    Rec(Box<G>, bool),
+    /// reference to an enclosing `Rec`: 0 = the innermost, 1 = the next one out
+    RecRef(u8),
     Rep(Box<G>, Bounds, Sink),
     // ---- binary / n-ary ---------------------------------------------------------------------
     Then(Box<G>, Box<G>),
@@ -178,12 +183,12 @@ impl G {
     pub fn children(&self) -> Vec<&G> {
         match self {
             Just(_) | JustSeq(..) | Any | OneOf(_) | NoneOf(_) | Select(_) | End | Empty
-            | Custom(..) | EmptyChoice | JustCtx => vec![],
+            | Custom(..) | EmptyChoice | JustCtx | RecRef(_) => vec![],
             Map(a) | To(a) | Ignored(a) | Filter(a) | TryMap(a) | TryMapWith(a) | OrNot(a)
             | Not(a) | Rewind(a) | Boxed(a) | ToSlice(a) | ToSpan(a) | Validate(a, _)
             | Labelled(a, _) | MapErr(a) | Memo(a) | WithState(a) | NestedDelims(a)
             | WithCtx(_, a) | MapCtx(a) | RepCtx(a) | RepCtxMax(a) | TryRepCtx(a) | Snd(a) | Fst(a) | MapUnit(a)
-            | MapZ(a) | SliceWith(a) | SpanWith(a) | Mid(a) | Lazy(a) | Ext(a, _) | CustomNest(a) => vec![a],
+            | MapZ(a) | SliceWith(a) | SpanWith(a) | Mid(a) | Lazy(a) | Ext(a, _) | CustomNest(a) | Rec(a, _) => vec![a],
             Rep(a, _, s) => {
                 let mut v = vec![&**a];
                 v.extend(s.child());
@@ -249,6 +254,26 @@ impl Sink {
     }
 }
 
+/// May evaluating `g` reach a `RecRef(k)` (k counted from `g` outwards, `depth` = number of `Rec` nodes
+/// entered below the one of interest) before consuming any token?  Conservative (true when unsure).
+/// A recursive grammar is *guarded* when its body cannot: a token is consumed before each recursion.
+pub fn reaches_ref_unguarded(g: &G, depth: u8) -> bool {
+    match g {
+        RecRef(k) => *k == depth,
+        Rec(a, _) => reaches_ref_unguarded(a, depth + 1),
+        Then(a, c) | IgnoreThen(a, c) | ThenIgnore(a, c) => reaches_ref_unguarded(a, depth) || (nullable(a) && reaches_ref_unguarded(c, depth)),
+        _ => g.children().iter().any(|c| reaches_ref_unguarded(c, depth)),
+    }
+}
+/// every `Rec` in `g` is guarded, and no `RecRef` escapes its binders
+pub fn well_formed_rec(g: &G, binders: u8) -> bool {
+    match g {
+        RecRef(k) => *k < binders,
+        Rec(a, _) => !reaches_ref_unguarded(a, 0) && well_formed_rec(a, binders + 1),
+        _ => g.children().iter().all(|c| well_formed_rec(c, binders)),
+    }
+}
+
 /// Conservative "may succeed without consuming a token" analysis.  The enumerators only put
 /// grammars for which this returns `false` under `repeated()`/`separated_by()` (class
 /// restriction of C02/C20: chumsky's debug progress assertions fire by design otherwise).
@@ -261,7 +286,9 @@ pub fn nullable(g: &G) -> bool {
         Map(a) | To(a) | Ignored(a) | Filter(a) | TryMap(a) | TryMapWith(a) | Boxed(a)
         | ToSlice(a) | ToSpan(a) | Validate(a, _) | Labelled(a, _) | MapErr(a) | Memo(a)
         | WithState(a) | WithCtx(_, a) | MapCtx(a) | Snd(a) | Fst(a) | MapUnit(a) | MapZ(a)
-        | SliceWith(a) | SpanWith(a) | Mid(a) | Ext(a, _) | CustomNest(a) => nullable(a),
+        | SliceWith(a) | SpanWith(a) | Mid(a) | Ext(a, _) | CustomNest(a) | Rec(a, _) => nullable(a),
+        // conservative: a recursive reference may match the empty string
+        RecRef(_) => true,
         Lazy(_) => true,
         OrNot(_) | Not(_) | Rewind(_) => true,
         Rep(a, bd, sink) => {
@@ -484,6 +511,8 @@ impl fmt::Display for G {
             Lazy(a) => write!(f, "lazy({})", a),
             Ext(a, own) => write!(f, "{}({})", if *own { "ext_own_check" } else { "ext_default_check" }, a),
             CustomNest(a) => write!(f, "custom_nest({})", a),
+            Rec(a, d) => write!(f, "{}({})", if *d { "rec_declare" } else { "rec" }, a),
+            RecRef(k) => write!(f, "rec_ref{}", k),
             Rep(a, x, s) => {
                 write!(f, "repeated[")?;
                 bd(f, x)?;
@@ -741,6 +770,10 @@ impl<'a> P<'a> {
             "ext_own_check" => Ext(un(self)?, true),
             "ext_default_check" => Ext(un(self)?, false),
             "custom_nest" => CustomNest(un(self)?),
+            "rec" => Rec(un(self)?, false),
+            "rec_declare" => Rec(un(self)?, true),
+            "rec_ref0" => RecRef(0),
+            "rec_ref1" => RecRef(1),
             "nested_delims" => NestedDelims(un(self)?),
             "map_ctx" => MapCtx(un(self)?),
             "rep_ctx" => RepCtx(un(self)?),
